@@ -151,6 +151,12 @@ def is_symbolic(v, _depth=0):
         return any(is_symbolic(x, _depth + 1) for x in v.values()) or any(
             is_symbolic(k, _depth + 1) for k in v.keys()
         )
+    import types as _types
+
+    if isinstance(v, _types.SimpleNamespace):
+        return any(is_symbolic(x, _depth + 1) for x in vars(v).values())
+    if isinstance(v, tuple) and hasattr(v, "_fields"):
+        return any(is_symbolic(x, _depth + 1) for x in v)
     return False
 
 
